@@ -167,8 +167,19 @@ def adaptive_keeps_high_loss_points(S):
     m_max, m_min = f_max.arg(0), f_min.arg(0)
     thresh = m_min + (m_max - m_min) * u
     kept = lr >= thresh
-    S.ensure("kept-rows-are-previous-points", z3.Implies(kept, cur.at(q) == prev.at(q)), hy + inst)
-    S.ensure("other-rows-are-fresh-points", z3.Implies(z3.Not(kept), cur.at(q) == fresh.at(q)), hy + inst)
+    # 'keep exactly the points at or above the threshold': such a previous point is still A row of the result (without
+    # parameter rows the order of the rows carries no meaning; with parameter rows the block order is demanded by
+    # adaptive_samplers_keep_the_rows_grouped_by_parameter_row)
+    jk = z3.Int("kept_row")
+    S.ensure("kept-rows-are-previous-points", z3.Implies(kept, z3.Exists([jk], z3.And(jk >= 0, jk < zint(n), z3.And([zreal(cur.at([(jk,), (c,)])) == zreal(prev.at([q[0], (c,)])) for c in range(2)])))), hy + inst)
+    # and nothing else survives: every row of the result is a kept previous point or a freshly drawn one
+    jo = z3.Int("origin_row")
+    S.ensure("every-result-row-is-a-kept-previous-point-or-a-fresh-point", z3.Exists([jo], z3.And(jo >= 0, jo < zint(n), z3.Or(z3.And([zreal(cur.at([q[0], (c,)])) == zreal(fresh.at([(jo,), (c,)])) for c in range(2)]), z3.And([zreal(cur.at([q[0], (c,)])) == zreal(prev.at([(jo,), (c,)])) for c in range(2)] + [zreal(loss.val.at([(jo,)])) >= (thresh if thr else m_min + (m_max - m_min) * zreal(rands[-1].val.at([(jo,)])))])))), hy + inst)
+    # 'replaced by fresh points': the row is SOME row of the sample drawn in this call (which candidate replaces which
+    # low-loss row is not prescribed); proved with the witness the code itself uses
+    jw = z3.Int("fresh_row")
+    row_is = lambda j: z3.And([zreal(cur.at([q[0], (c,)])) == zreal(fresh.at([(j,), (c,)])) for c in range(2)])
+    S.ensure("other-rows-are-fresh-points", z3.Implies(z3.Not(kept), z3.Exists([jw], z3.And(jw >= 0, jw < zint(n), row_is(jw)))), hy + inst)
     # fresh rows lie inside the domain (operand contract); instantiate by touching the fresh row
     xs = [fresh.at([q[0], (k,)]) for k in range(2)]
     S.ensure("fresh-rows-inside-domain", dom.in_pred(xs, []), hy)
@@ -261,7 +272,7 @@ def static_samplers_made_from_one_sampler_are_independent(S):
     S.ensure("use-counters-are-separate", zint(S.getattr(s1, "counter")) == 1 and zint(S.getattr(s2, "counter")) == 0)
 
 
-for _prop in ("C02", "C01"):
+for _prop in ("C02", "C01", "C15"):
     def _adaptive_rows(S, _prop=_prop):
         """adaptive samplers with K parameter rows (the form a condition with parameters uses them in): after the first
         call AND after a call with a loss tensor the result has exactly n rows per parameter row, grouped by parameter
@@ -288,9 +299,9 @@ for _prop in ("C02", "C01"):
             if not grouped:
                 return
             inst = lambda q: S.schema_instances([q[0]])
-            if _prop == "C02":
+            if _prop in ("C02", "C15"):
                 S.forall(f"{tag}:row-carries-its-parameter-row-unchanged", pts.f["_t"], lambda q, t=t: zreal(t.at([q[0], (2,)])) == zreal(Tt.val.at([(q[0][0],), ()])), extra_hyps=inst)
-            else:
+            if _prop in ("C01", "C15"):
                 S.forall(f"{tag}:row-in-the-domain-at-its-own-parameter-row", pts.f["_t"], lambda q, t=t: dom.in_pred([zreal(t.at([q[0], (c,)])) for c in range(2)], [zreal(Tt.val.at([(q[0][0],), ()]))]), extra_hyps=inst)
     _adaptive_rows.__name__ = "adaptive_samplers_keep_the_rows_grouped_by_parameter_row"
     scenario(_prop, [ATS + ".sample_points", ARS + ".sample_points"], configs=["threshold", "random"])(_adaptive_rows)
